@@ -3,166 +3,8 @@
   lookup) is sound for inhabitation: `a == b` implies `a` and `b` have the same inhabitants.
 -/
 import J2M.Proofs.InhUnion
+import J2M.Proofs.PyEqBasic
 namespace J2M
-
-/-! ## list facts -/
-
-theorem subset_of_nodup_length {α} [DecidableEq α] :
-    ∀ (l1 l2 : List α), l1.Nodup → l1 ⊆ l2 → l2.length ≤ l1.length → l2 ⊆ l1 := by
-  intro l1
-  induction l1 with
-  | nil =>
-    intro l2 _ _ hl
-    have : l2 = [] := by simpa using hl
-    simp [this]
-  | cons a l1 ih =>
-    intro l2 nd sub hl
-    simp only [List.nodup_cons] at nd
-    have ha : a ∈ l2 := sub List.mem_cons_self
-    have sub' : l1 ⊆ l2.erase a := by
-      intro x hx
-      have hne : x ≠ a := fun e => nd.1 (e ▸ hx)
-      exact (List.mem_erase_of_ne hne).2 (sub (List.mem_cons_of_mem _ hx))
-    have hl' : (l2.erase a).length ≤ l1.length := by
-      rw [List.length_erase_of_mem ha]; simp at hl; omega
-    have := ih (l2.erase a) nd.2 sub' hl'
-    intro x hx
-    by_cases e : x = a
-    · simp [e]
-    · exact List.mem_cons_of_mem _ (this ((List.mem_erase_of_ne e).2 hx))
-
-theorem exists_zip_left {α β} : ∀ (xs : List α) (ys : List β), xs.length ≤ ys.length →
-    ∀ x ∈ xs, ∃ y, (x, y) ∈ xs.zip ys := by
-  intro xs
-  induction xs with
-  | nil => simp
-  | cons a xs ih =>
-    intro ys hl x hx
-    cases ys with
-    | nil => simp at hl
-    | cons b ys =>
-      rcases List.mem_cons.1 hx with e | hx
-      · exact ⟨b, by simp [e]⟩
-      · obtain ⟨y, hy⟩ := ih ys (by simpa using hl) x hx
-        exact ⟨y, by simp [hy]⟩
-
-theorem exists_zip_right {α β} : ∀ (xs : List α) (ys : List β), ys.length ≤ xs.length →
-    ∀ y ∈ ys, ∃ x, (x, y) ∈ xs.zip ys := by
-  intro xs
-  induction xs with
-  | nil => intro ys hl y hy; have : ys = [] := by simpa using hl
-           simp [this] at hy
-  | cons a xs ih =>
-    intro ys hl y hy
-    cases ys with
-    | nil => simp at hy
-    | cons b ys =>
-      rcases List.mem_cons.1 hy with e | hy
-      · exact ⟨a, by simp [e]⟩
-      · obtain ⟨x, hx⟩ := ih ys (by simpa using hl) y hy
-        exact ⟨x, by simp [hx]⟩
-
-theorem mem_insertByKey {α} {key : α → String} {x a : α} {ys : List α} :
-    a ∈ insertByKey key x ys ↔ a = x ∨ a ∈ ys := by
-  induction ys with
-  | nil => simp [insertByKey]
-  | cons y ys ih =>
-    unfold insertByKey
-    split
-    · simp
-    · simp only [List.mem_cons, ih]
-      constructor
-      · rintro (h | h | h) <;> simp [h]
-      · rintro (h | h | h) <;> simp [h]
-
-theorem mem_sortByKey {α} {key : α → String} {a : α} {xs : List α} : a ∈ sortByKey key xs ↔ a ∈ xs := by
-  have : ∀ (xs init : List α), a ∈ xs.foldl (fun acc x => insertByKey key x acc) init ↔ a ∈ init ∨ a ∈ xs := by
-    intro xs
-    induction xs with
-    | nil => simp
-    | cons x xs ih =>
-      intro init
-      simp only [List.foldl_cons, ih, mem_insertByKey, List.mem_cons]
-      constructor
-      · rintro ((h | h) | h) <;> simp [h]
-      · rintro (h | h | h) <;> simp [h]
-  simpa [sortByKey] using this xs []
-
-/-! ## the two guarded folds of `pyEq` -/
-
-/-- a fold that keeps going only while the accumulator is `some true` -/
-theorem guardFold_true {α} (step : Option Bool → α → Option Bool) (f : α → Option Bool)
-    (h1 : ∀ x, step (some true) x = f x) (h2 : ∀ r x, r ≠ some true → step r x = r) :
-    ∀ (l : List α) (init : Option Bool), l.foldl step init = some true →
-      init = some true ∧ ∀ x ∈ l, f x = some true := by
-  intro l
-  induction l with
-  | nil => intro init h; exact ⟨by simpa using h, by simp⟩
-  | cons a l ih =>
-    intro init h
-    rw [List.foldl_cons] at h
-    obtain ⟨hs, hl⟩ := ih _ h
-    by_cases hi : init = some true
-    · subst hi
-      rw [h1] at hs
-      exact ⟨rfl, by
-        intro x hx
-        rcases List.mem_cons.1 hx with e | hx
-        · rw [e]; exact hs
-        · exact hl x hx⟩
-    · rw [h2 _ _ hi] at hs
-      exact absurd hs hi
-
-def eqListF (f : Ty → Ty → Option Bool) (xs ys : List Ty) : Option Bool :=
-  if xs.length != ys.length then some false else
-  (xs.zip ys).foldl (fun acc (p : Ty × Ty) =>
-    match acc with
-    | some true => f p.1 p.2
-    | r => r) (some true)
-
-def eqFieldsF (f : Ty → Ty → Option Bool) (fa fb : Fields) : Option Bool :=
-  if fa.length != fb.length then some false else
-  fa.foldl (fun acc (kv : String × Ty) =>
-    match acc with
-    | some true =>
-      match fb.get? kv.1 with
-      | none => some false
-      | some tb => f kv.2 tb
-    | r => r) (some true)
-
-theorem eqListF_true {f xs ys} (h : eqListF f xs ys = some true) :
-    xs.length = ys.length ∧ ∀ p ∈ xs.zip ys, f p.1 p.2 = some true := by
-  unfold eqListF at h
-  split at h
-  · simp at h
-  · rename_i hl
-    refine ⟨by simpa using hl, ?_⟩
-    exact (guardFold_true _ (fun p : Ty × Ty => f p.1 p.2) (fun _ => rfl)
-      (fun r x hr => by
-        cases r with
-        | none => rfl
-        | some b => cases b <;> simp_all) _ _ h).2
-
-theorem eqFieldsF_true {f fa fb} (h : eqFieldsF f fa fb = some true) :
-    fa.length = fb.length ∧ ∀ kv ∈ fa, ∃ tb, Fields.get? fb kv.1 = some tb ∧ f kv.2 tb = some true := by
-  unfold eqFieldsF at h
-  split at h
-  · simp at h
-  · rename_i hl
-    refine ⟨by simpa using hl, ?_⟩
-    have := (guardFold_true _ (fun kv : String × Ty =>
-        match fb.get? kv.1 with
-        | none => some false
-        | some tb => f kv.2 tb) (fun _ => rfl)
-      (fun r x hr => by
-        cases r with
-        | none => rfl
-        | some b => cases b <;> simp_all) _ _ h).2
-    intro kv hkv
-    have h' := this kv hkv
-    cases hg : Fields.get? fb kv.1 with
-    | none => simp [hg] at h'
-    | some tb => simp only [hg] at h'; exact ⟨tb, rfl, h'⟩
 
 /-! ## field dicts that agree key by key -/
 
@@ -240,13 +82,6 @@ theorem inh_union_congr {ov acc g} {xs ys xs' ys' : List Ty}
     exact ⟨x, (hx x).1 (List.of_mem_zip hx').1, (h _ hx' v).2 hi⟩
 
 /-! ## soundness of `==` -/
-
-theorem pyEq_union_eq {so ms g fuel xs ys} :
-    pyEq so ms g (fuel + 1) (.union xs) (.union ys) =
-      eqListF (pyEq so ms g fuel) (sortedMembers so ms xs) (sortedMembers so ms ys) := rfl
-
-theorem pyEq_obj_eq {so ms g fuel fa fb} :
-    pyEq so ms g (fuel + 1) (.obj fa) (.obj fb) = eqFieldsF (pyEq so ms g fuel) fa fb := rfl
 
 theorem pyEq_sound_aux {ov acc g' so ms K} :
     ∀ (fuel : Nat) (a b : Ty), Ty.Good K a → Ty.Good K b →
